@@ -11,6 +11,8 @@ RULE = ('exhaustive in both tiers: setup outcome (ok + 7 exception kinds incl. a
         'wrappers as decoration targets (every kind of function carrying functools.wraps of every kind, two layers, partials / callable instances / '
         'hand-set __wrapped__: what counts is the kind of the object handed in); FALSY exception instances (classes defining __len__ -> 0 or '
         '__bool__ -> False, Exception and BaseException subclasses) are part of the outcome alphabet of setup / block / cleanup; '
+        'generators that RETURN a value when they finish (`return <object>` after the cleanup: nothing / explicit None / 7 falsy / 7 truthy objects; async: a bare '
+        'return) — enumerated against every setup x yields x cleanup x block outcome for the single, nested and self-nested structure, drawn everywhere else; '
         'random programs of depth <= 4 and length <= 4 (managers drawn from a small pool, so that the same decorated manager is nested '
         'in itself and reused).  Same manager nested in itself: depth 2 (enumerated manager inside / outside) and depth 3.  '
         'Argument forwarding: 9 generator signatures (parameters named f, func, fn, args, kwargs, self, gen, iterator, wrapped, cls, '
@@ -156,11 +158,34 @@ def gen_exc(rng, mode, kind, oid):
     return mk_exc(rng, kind, oid)
 
 
-def mk_gen(rng, mode, tag, setup, yields, cleanup, base, mgr=None, sig=None):
+# what the user generator RETURNS when it finishes (`return <object>` as its last statement, after the cleanup): wire form
+# null (falls off the end) | ["none"] (an explicit `return` / `return None`) | ["falsy", i] | ["truthy", i]; an async generator cannot return a value
+TRUTHY_VALUES = [1, 'handled', [0], True, 3.5, (None,), {'n': 0}]
+FALSY_VALUES = [0, '', [], False, 0.0, (), {}]
+RETURNS = [None, 'none', 'falsy', 'truthy']
+
+
+def mk_ret(rng, mode, kind):
+    if kind is None:
+        return None
+    if kind == 'none' or mode == 'async':
+        return ['none']
+    return [kind, rng.randrange(len(TRUTHY_VALUES if kind == 'truthy' else FALSY_VALUES))]
+
+
+def rand_ret(rng, mode):
+    """drawn for the generators of the streams that do not enumerate it"""
+    return mk_ret(rng, mode, rng.choice([None, None, 'none', 'falsy', 'truthy', 'truthy']))
+
+
+def mk_gen(rng, mode, tag, setup, yields, cleanup, base, mgr=None, sig=None, returns='draw'):
     """cleanup: None | kind | ('same', E) | ('chained', E);  mgr: which decorated manager object this use calls (default: one of
     its own, decorated for this use);  sig: signature of that manager's generator function"""
     g = {'tag': tag, 'yields': yields, 'value': VAL0 + tag, 'suspend': rng.random() < 0.5,
          'setup': gen_exc(rng, mode, setup, base + 1)}
+    r = rand_ret(rng, mode) if returns == 'draw' else mk_ret(rng, mode, returns)
+    if r is not None:
+        g['returns'] = r
     if mgr is not None:
         g['mgr'] = mgr
     if sig is not None:
@@ -194,7 +219,7 @@ STRUCTS = ['single', 'nest-in', 'nest-in-outerfails', 'nest-out', 'rep-first', '
            'self-in', 'self-in-outerfails', 'self-out', 'self-rep-first', 'self-rep-second']
 
 
-def build(rng, mode, struct, setup, yields, cleanup, body):
+def build(rng, mode, struct, setup, yields, cleanup, body, returns='draw'):
     lf, be = leaf(rng, 0, body, 7)
     if cleanup in ('same', 'chained'):
         if be is None:
@@ -202,7 +227,7 @@ def build(rng, mode, struct, setup, yields, cleanup, body):
         cleanup = (cleanup, be)
     mgr = 'M' if struct.startswith('self-') else None        # both uses call the same decorated manager object
     shape = struct[5:] if mgr else struct
-    g = mk_gen(rng, mode, 1, setup, yields, cleanup, 10, mgr)
+    g = mk_gen(rng, mode, 1, setup, yields, cleanup, 10, mgr, returns=returns)
     if shape == 'single':
         p = ['with', g, ARGS, lf]
     elif shape in ('nest-in', 'in'):
@@ -221,6 +246,8 @@ def build(rng, mode, struct, setup, yields, cleanup, body):
                 'early' if body in ('ret', 'brk') else 'bodyexc' if body in ALPHA else 'allok')))
     if any(isinstance(z, str) and z.endswith('!') for z in (setup, body, cleanup if not isinstance(cleanup, tuple) else None)):
         branch += '-falsy'
+    if returns not in ('draw', None):
+        branch += '-returns-' + returns
     return {'m': 'ctxmgr', 'c': {'kind': 'prog', 'mode': mode, 'prog': p},
             'x': {'tag': f'{mode}/{struct}/{branch}', 'trivial': branch == 'allok'}}
 
@@ -433,6 +460,15 @@ def cases(rng, tier):
                 c = build(rng, mode, struct, setup, yields, cleanup, body)
                 if c is not None:
                     out.append(c)
+        # what the generator returns after its cleanup, enumerated: every setup x yields x cleanup x block outcome x returned value
+        for struct in ('single', 'nest-in', 'self-out'):
+            for setup, yields, cleanup, body in itertools.product(SETUPS, (0, 1, 2), CLEANUPS, BODIES):
+                for returns in (RETURNS[1:] if mode == 'sync' else ['none']):
+                    if struct != 'single' and (setup is not None or yields != 1):
+                        continue
+                    c = build(rng, mode, struct, setup, yields, cleanup, body, returns)
+                    if c is not None:
+                        out.append(c)
     out += args_cases(rng, tier) + selfnest3_cases(rng, tier) + hist_cases(rng, tier)
     if tier == 'thorough':
         # nested, both managers enumerated: outer over everything, inner over every cleanup outcome
@@ -513,6 +549,8 @@ def gen_factory(sig, mode):
                    f'        for _i_ in range(_U_.n):\n'
                    f'            yield _U_.v\n'
                    f'            _E_.after(_U_, _i_)\n'
+                   f'        if _U_.returns:\n'
+                   f'            return _U_.retval\n'
                    f'    return user_gen\n')
         else:
             src = (f'def _make_(_E_, _K_):\n'
@@ -526,6 +564,8 @@ def gen_factory(sig, mode):
                    f'            if _U_.susp:\n'
                    f'                await _E_.sleep0()\n'
                    f'            _E_.after(_U_, _i_)\n'
+                   f'        if _U_.returns:\n'
+                   f'            return\n'
                    f'    return user_gen\n')
         ns = {}
         exec(compile(src, f'<c16 user generator {sig}/{mode}>', 'exec'), ns)
@@ -539,6 +579,9 @@ class Use:
     def __init__(self, env, g, a):
         self.tag, self.se, self.ce, self.n, self.susp = g['tag'], g['setup'], g['cleanup'], g['yields'], g.get('suspend')
         self.v = env.val(g['tag'])
+        r = g.get('returns')
+        self.returns = r is not None          # the generator ends with an explicit return statement
+        self.retval = None if r is None or r[0] == 'none' else (TRUTHY_VALUES if r[0] == 'truthy' else FALSY_VALUES)[r[1]]
         self.a = a
         self.recv = None
 
